@@ -782,6 +782,7 @@ func main() {
 	emitCodeShape(&b, readCodeShape("enc", filepath.Dir(encAsm), "Assembler", je0(encAsm)))
 	emitEncoderState(&b, encVars, encAsm)
 	emitLoadFunc(&b, in("loader"))
+	emitAllocs(&b, root)
 	b.WriteString("/-- words of `type _Decoder func(...)` (jitdec/pools.go), in order -/\n")
 	fmt.Fprintf(&b, "def decoderSigArgs : List SigWord := %s\ndef decoderSigResults : List SigWord := %s\n\n", leanWords(decArgs), leanWords(decRes))
 	b.WriteString("/-- words of `type Encoder func(...)` (internal/encoder/vars) -/\n")
